@@ -27,7 +27,7 @@ COMPONENTS = {
 }
 ASSUMPTIONS = ['declared budgets: local 5 tries; s3c 4 tries, 403 not retried; b2 4 tries for transport errors and 429, 1 + MAX_REAUTH_ATTEMPTS attempts for other statuses',
                'stray temporary files after a failed local upload are recorded as a probe, not judged']
-PROBES = ['concurrent_expiry', 'masked', 'persistent_raised', 'gray_zone', 'rewound_partial_stream', 'lost_response', 'mid_upload', 'mid_download', 'b2_reauth', 'retry_after_honoured']
+PROBES = ['e2e', 'e2e_fault_fired', 'concurrent_expiry', 'masked', 'persistent_raised', 'gray_zone', 'rewound_partial_stream', 'lost_response', 'mid_upload', 'mid_download', 'b2_reauth', 'retry_after_honoured']
 TIERS = {'quick': {'budget_s': 60, 'batch': 4}, 'thorough': {'budget_s': 900, 'batch': 8}}
 
 OPS = ['exists', 'upload', 'upload_stream', 'download', 'download_stream', 'list_files', 'delete']
@@ -36,6 +36,21 @@ TRANSFER_OPS = ('upload', 'upload_stream', 'download', 'download_stream')
 
 def gen_case(seed, tier):
     rng = substream(seed, 'c12')
+    if rng.random() < 0.12:
+        # the real snapshot + restore over a real HTTP adapter whose service injects transient faults within the budgets
+        adapter = rng.choice(['s3', 'b2'])
+        kinds = ['connect', 'read', 'write', 'status:500', 'status:503', 'status:429'] + (['status:401'] if adapter == 'b2' else [])
+        ops = ['put', 'get', 'head', 'list', 'delete'] if adapter == 's3' else ['upload', 'download', 'head', 'list_file_names', 'get_upload_url', 'list_buckets', 'hide_file']
+        faults = [{'kind': rng.choice(kinds), 'op': rng.choice(ops), 'count': rng.choice([1, 1, 2]), 'skip': rng.randrange(0, 6),
+                   'after_chunks': rng.choice([None, None, 1, 2]), 'lost_response': rng.random() < 0.2, 'code': None} for _ in range(rng.randrange(1, 4))]
+        for f in faults:
+            if f['kind'].startswith('status:'):
+                f['after_chunks'] = None
+        from sim import gen as _gen
+        tree = _gen.tree_spec(rng, mn=8, mx=64, nfiles=rng.choice([1, 2, 3]), max_size=400, allow_nonutf8=False, min_files=1)
+        return {'seed': seed, 'sched_seed': seed, 'kind': 'e2e', 'adapter': adapter, 'op': 'snapshot+restore', 'faults': faults, 'tree': tree,
+                'N': rng.choice([1, 2, 3]), 'encrypted': rng.random() < 0.5, 'page': rng.choice([1, 2, 1000]), 'lat': rng.choice([0.0, 0.01]),
+                'opts': world.SchedOpts.swarm(rng).as_dict(), 'size': 0, 'chunk': 1}
     if rng.random() < 0.2:
         # several concurrent calls on one B2 adapter while the authorisation expires once
         k = rng.choice([2, 3, 4])
@@ -457,7 +472,64 @@ def run_concurrent(case):
             'sample': {'kind': 'concurrent', 'calls': [c['op'] for c in case['calls']], 'expire_after': case['expire_after'], 'auth': out.get('auth')}}
 
 
+def run_e2e(case):
+    from sim import gen as _gen, harness
+    viol, probes = [], {'e2e': 1}
+    W = harness.World(case['sched_seed'], 'c12', flavour='async', lat_kind='zero')
+    try:
+        files = _gen.materialize(W.dir / 'src', case['tree'])
+        faults = [fakes.Fault.from_dict(f) for f in case['faults']]
+        if case['adapter'] == 's3':
+            svc = fakes.FakeS3(bucket='bkt', key_id='AKID', secret='secret/key+1', region='us-east-1', host='s3.fake.test',
+                               page_size=case['page'], latency=case['lat'], faults=[], request_budget=None)
+            mk = lambda: fakes.make_s3(svc)      # noqa
+        else:
+            svc = fakes.FakeB2(bucket_name='bkt', bucket_id='bid', key_id='kid', application_key='akey', page_size=case['page'],
+                               latency=case['lat'], faults=[], request_budget=None)
+            mk = lambda: fakes.make_b2(svc)      # noqa
+        W.make_backend_override = mk
+        client = world.Client('u', password=b'pw' if case['encrypted'] else None, concurrent=case['N'])
+        settings = {'chunking': {'min_length': 8, 'max_length': 64},
+                    'encryption': {'kdf': {'name': 'scrypt', 'n': 2, 'r': 1}} if case['encrypted'] else None}
+        opts = world.SchedOpts.from_dict(case['opts'])
+        r0 = W.init(client, settings, world.SchedOpts.sequential())
+        if not r0.ok:
+            raise RuntimeError(f'init failed in harness: {r0.outcome()} {r0.exc!r}')
+        svc.faults = faults          # faults start with the snapshot
+        sig = {'adapter': case['adapter'], 'op': 'e2e'}
+        for name, run in (('snapshot', lambda: W.snapshot(client, [W.dir / 'src'], opts)), ('restore', lambda: W.restore(client, W.dir / 'out', opts))):
+            before = len(svc.requests)
+            r = run()
+            if r.hang is not None:
+                viol.append({'cls': 'hang', 'sig': sig, 'msg': f'{name} over {case["adapter"]} with transient faults did not terminate: {r.hang}'})
+                break
+            if r.exc is not None:
+                fired = [f.as_dict() for f in faults if f.fired]
+                viol.append({'cls': 'transient-fault-not-masked', 'sig': sig,
+                             'msg': f'{name} over {case["adapter"]} raised {r.exc!r} although every injected fault stays within the retry budget; fired: {fired}'})
+                break
+            if len(svc.requests) - before > 60 * (len(files) * 12 + 10):
+                viol.append({'cls': 'unbounded-retries', 'sig': sig, 'msg': f'{name}: {len(svc.requests) - before} requests'})
+                break
+        if not viol:
+            got = _gen.read_tree(W.dir / 'out')
+            want = {str(harness.restored_path(W.dir / 'out', p).relative_to(W.dir / 'out')): v for p, v in files.items()}
+            if got != want and any(len(v[0]) for v in want.values()):
+                viol.append({'cls': 'wrong-result', 'sig': sig, 'msg': f'snapshot + restore over {case["adapter"]} with masked transient faults does not reproduce the files'})
+        if any(f.fired for f in faults):
+            probes['e2e_fault_fired'] = 1
+        for k, v in svc.counters.items():
+            if k.startswith('fault:'):
+                probes['e2e_' + k] = v
+        return {'violations': viol, 'digest': W.digest(), 'nontrivial': True, 'probes': probes, 'evaluations': 1, 'sim_s': W.sim_s, 'steps': W.sim_steps,
+                'sample': {'kind': 'e2e', 'adapter': case['adapter'], 'faults': case['faults'], 'requests': len(svc.requests)}}
+    finally:
+        W.close()
+
+
 def run_case(case):
+    if case.get('kind') == 'e2e':
+        return run_e2e(case)
     if case.get('kind') == 'concurrent':
         return run_concurrent(case)
     viol, probes = [], {}
@@ -506,6 +578,18 @@ def _plan_str(plan):
 
 
 def shrink(case):
+    if case.get('kind') == 'e2e':
+        for i in range(len(case['faults'])):
+            if len(case['faults']) > 1:
+                c = copy.deepcopy(case)
+                del c['faults'][i]
+                yield c
+        for i in range(len(case['tree'])):
+            if len(case['tree']) > 1:
+                c = copy.deepcopy(case)
+                del c['tree'][i]
+                yield c
+        return
     if case.get('kind') == 'concurrent':
         for i in range(len(case['calls'])):
             if len(case['calls']) > 2:
